@@ -1,6 +1,6 @@
 //! chromatic adaptation over all ordered pairs of white points x cone matrices x an XYZ lattice
 #![allow(deprecated)]
-use palette::chromatic_adaptation::{AdaptFrom, AdaptFromUnclamped, Method};
+use palette::chromatic_adaptation::{AdaptFrom, AdaptFromUnclamped, AdaptInto, AdaptIntoUnclamped, Method};
 use palette::lms::matrix::{Bradford, UnitMatrix, VonKries};
 use palette::white_point::{self as wp, WhitePoint};
 use palette::Xyz;
@@ -115,14 +115,35 @@ macro_rules! pair {
                 let (t_cone, t_unit): (f64, f64) = if <T as Fl>::NAME == "f32" { (2e-5, 2e-6) } else { (4e-6, 1e-12) };
                 macro_rules! m {
                     ($mn:literal, $M:ty, $old:expr, $tol:expr) => {{
+                        // every other spelling of the same adaptation must return the same bits
+                        let mism: std::cell::RefCell<Vec<(&'static str, [T; 3], [T; 3], [T; 3])>> = std::cell::RefCell::new(vec![]);
                         let f = |p: [T; 3]| -> ([T; 3], [T; 3], [T; 3]) {
                             let x: Xyz<$S, T> = Xyz::new(p[0], p[1], p[2]);
                             let y: Xyz<$D, T> = Xyz::adapt_from_unclamped_with::<$M>(x);
                             let back: Xyz<$S, T> = Xyz::adapt_from_unclamped_with::<$M>(y);
                             let o: Xyz<$D, T> = Xyz::adapt_from_using(x, $old);
+                            let same = |a: Xyz<$D, T>, b: Xyz<$D, T>| (a.x.to_bits(), a.y.to_bits(), a.z.to_bits()) == (b.x.to_bits(), b.y.to_bits(), b.z.to_bits());
+                            let mut forms: Vec<(&'static str, Xyz<$D, T>, Xyz<$D, T>)> = vec![
+                                ("adapt_into_unclamped_with", AdaptIntoUnclamped::<Xyz<$D, T>>::adapt_into_unclamped_with::<$M>(x), y),
+                                ("adapt_into_using (deprecated)", AdaptInto::<Xyz<$D, T>, $S, $D, T>::adapt_into_using(x, $old), o),
+                            ];
+                            if $mn == "Bradford" {
+                                forms.push(("adapt_from_unclamped (default method)", <Xyz<$D, T> as AdaptFromUnclamped<Xyz<$S, T>>>::adapt_from_unclamped(x), y));
+                                forms.push(("adapt_into_unclamped (default method)", AdaptIntoUnclamped::<Xyz<$D, T>>::adapt_into_unclamped(x), y));
+                                forms.push(("adapt_from (deprecated, default method)", <Xyz<$D, T> as AdaptFrom<Xyz<$S, T>, $S, $D, T>>::adapt_from(x), o));
+                                forms.push(("adapt_into (deprecated, default method)", AdaptInto::<Xyz<$D, T>, $S, $D, T>::adapt_into(x), o));
+                            }
+                            for (name, got, want) in forms {
+                                if !same(got, want) {
+                                    mism.borrow_mut().push((name, p, [got.x, got.y, got.z], [want.x, want.y, want.z]));
+                                }
+                            }
                             ([y.x, y.y, y.z], [back.x, back.y, back.z], [o.x, o.y, o.z])
                         };
                         check_pair::<T>(c, n, $sn, $dn, $mn, $tol, [sw.x, sw.y, sw.z], [dw.x, dw.y, dw.z], &f);
+                        for (name, p, got, want) in mism.into_inner() {
+                            c.violation(&format!("C14/adapt-forms/{}/{}/{}", $mn, <T as Fl>::NAME, name), 1.0, || json!({"sub": "adapt", "what": name, "float": <T as Fl>::NAME, "from": $sn, "to": $dn, "method": $mn, "input": [p[0] as f64, p[1] as f64, p[2] as f64], "observed": [got[0] as f64, got[1] as f64, got[2] as f64], "expected": [want[0] as f64, want[1] as f64, want[2] as f64]}));
+                        }
                     }};
                 }
                 m!("Bradford", Bradford, Method::Bradford, t_cone);
@@ -169,6 +190,6 @@ pub fn run(ctx: &Ctx, total: &mut Collector) {
     all_calls!(c, n, f64, [wp::A, wp::B, wp::C, wp::D50, wp::D55, wp::D65, wp::D75, wp::E, wp::F2, wp::F7, wp::F11], [wp::A, wp::B, wp::C, wp::D50, wp::D55, wp::D65, wp::D75, wp::E, wp::F2, wp::F7, wp::F11]);
     all_calls!(c, n, f32, [wp::A, wp::B, wp::C, wp::D50, wp::D55, wp::D65, wp::D75, wp::E, wp::F2, wp::F7, wp::F11], [wp::A, wp::B, wp::C, wp::D50, wp::D55, wp::D65, wp::D75, wp::E, wp::F2, wp::F7, wp::F11]);
     c.add(sub, n, 3 * n, 4 * n, n);
-    c.exhaustive(sub, true, "all 121 ordered pairs of 11 white points x {Bradford, VonKries, XYZ scaling} x 7^3 XYZ lattice points + the source white, f32 and f64; new (AdaptFromUnclamped) and deprecated (AdaptFrom) API");
+    c.exhaustive(sub, true, "all 121 ordered pairs of 11 white points x {Bradford, VonKries, XYZ scaling} x 7^3 XYZ lattice points + the source white, f32 and f64; new (AdaptFromUnclamped / AdaptIntoUnclamped, explicit and default method) and deprecated (AdaptFrom / AdaptInto, explicit and default method) API, all spellings bit-identical");
     total.merge(c);
 }
